@@ -337,41 +337,78 @@ End Metric.
 (* ---------------------------------------------------------------------------------------- *)
 (* the theorem *)
 
-Lemma run_line_independent pf ns pool st line :
-  snd (run_line pf ns pool st line) = raw_of (lex pf ns line).
+Lemma lex_event_not_metric r m : lex_event r <> OMetric m.
 Proof.
-  unfold run_line, run_line_gen. rewrite pool_get_clean.
-  set (s2 := set_sampling (set_ns (set_input (reset_gen ResetCurrent st) line (length line)
-                                             (ls_pos (reset_gen ResetCurrent st))) ns) f64_one).
-  assert (Hs2 : s2 = LS line (length line) 0 0 (ls_etl st) (ls_exl st) None None [] ns None f64_one) by reflexivity.
-  assert (HA : At s2 [] line) by (rewrite Hs2; repeat split).
-  transitivity (finish_res pf (lexSpecial pf clean s2)).
-  { destruct (lexSpecial pf clean s2); reflexivity. }
+  unfold lex_event, lex_event_gen. destruct r as [|b r0]; [discriminate|].
+  destruct (negb (b =? c_e)); [discriminate|].
+  match goal with |- match ?x with _ => _ end <> _ => destruct x as [[e t]| |] end; discriminate.
+Qed.
+
+(* the machine started as Run starts it, with an arbitrary value [e0] left in l.e *)
+Lemma machine_from pf ns line etl exl e0 :
+  finish_res pf (lexSpecial pf clean (LS line (length line) 0 0 etl exl None e0 [] ns None f64_one)) =
+  match lex pf ns line with
+  | OMetric m => RR (Some (clean_metric m)) e0 None
+  | o => raw_of o
+  end.
+Proof.
+  set (s2 := LS line (length line) 0 0 etl exl None e0 [] ns None f64_one).
+  assert (HA : At s2 [] line) by (repeat split).
   unfold lexSpecial, lex, lex_gen. rewrite (At_unread _ _ _ HA).
   destruct line as [|b r]; [reflexivity|].
   destruct (b =? c_us).
-  - fold lex_event. apply (event_path pf (advance s2 r) ([] ++ [b]) r).
-    + exact (At_advance s2 [] [b] r HA).
-    + rewrite Hs2; reflexivity.
-    + rewrite Hs2; reflexivity.
-    + rewrite Hs2; reflexivity.
+  - fold lex_event.
+    rewrite (event_path pf (advance s2 r) ([] ++ [b]) r (At_advance s2 [] [b] r HA) eq_refl eq_refl eq_refl).
+    pose proof (lex_event_not_metric r) as Hne.
+    destruct (lex_event r) as [m| | |]; [exfalso; exact (Hne m eq_refl)|reflexivity..].
   - destruct (b =? c_nul); [reflexivity|].
-    rewrite Hs2.
     match goal with |- finish_res pf (lexKeySep pf ?x) = _ =>
-      change x with (LS (b :: r) (length (b :: r)) 0 0 (ls_etl st) (ls_exl st) (Some clean) None [] ns None f64_one) end.
-    rewrite (metric_path pf ns (b :: r) (ls_etl st) (ls_exl st) None).
+      change x with (LS (b :: r) (length (b :: r)) 0 0 etl exl (Some clean) e0 [] ns None f64_one) end.
+    rewrite (metric_path pf ns (b :: r) etl exl e0).
     destruct (lex_metric pf ns (b :: r)); reflexivity.
 Qed.
 
+Lemma run_line_gen_finish pf v ns pool st line :
+  snd (run_line_gen pf v true ns pool st line) =
+  finish_res pf (lexSpecial pf clean
+    (set_sampling (set_ns (set_input (reset_gen v st) line (length line) (ls_pos (reset_gen v st))) ns) f64_one)).
+Proof.
+  unfold run_line_gen. rewrite pool_get_clean.
+  destruct (lexSpecial pf clean _); reflexivity.
+Qed.
+
+Lemma run_line_independent pf ns pool st line :
+  snd (run_line pf ns pool st line) = raw_of (lex pf ns line).
+Proof.
+  unfold run_line. rewrite run_line_gen_finish.
+  change (set_sampling _ f64_one) with (LS line (length line) 0 0 (ls_etl st) (ls_exl st) None None [] ns None f64_one).
+  rewrite machine_from. destruct (lex pf ns line); reflexivity.
+Qed.
+
+(* `l.e = nil` is the one assignment of reset() the parser does not need: without it Run may
+   return a stale event next to a metric, which handleDatagram never looks at *)
+Lemma run_line_no_e_harmless pf ns pool st line :
+  parser_view (snd (run_line_gen pf ResetNoE true ns pool st line)) = raw_of (lex pf ns line).
+Proof.
+  rewrite run_line_gen_finish.
+  change (set_sampling _ f64_one) with (LS line (length line) 0 0 (ls_etl st) (ls_exl st) None (ls_e st) [] ns None f64_one).
+  rewrite machine_from. destruct (lex pf ns line); reflexivity.
+Qed.
+
 (* one lexer over any sequence of lines, namespaces and pool contents, from any state *)
+Lemma run_lines_cons pf st ns pool line steps :
+  run_lines pf st ((ns, pool, line) :: steps) =
+  snd (run_line pf ns pool st line) :: run_lines pf (fst (run_line pf ns pool st line)) steps.
+Proof.
+  unfold run_lines, run_line. cbn [run_lines_gen].
+  generalize (run_line_gen pf ResetCurrent true ns pool st line). intros [s' res]. reflexivity.
+Qed.
+
 Lemma run_lines_independent pf steps : forall st,
   run_lines pf st steps = map (fun '(ns, _, line) => raw_of (lex pf ns line)) steps.
 Proof.
   induction steps as [|[[ns pool] line] steps IH]; intros st; [reflexivity|].
-  unfold run_lines in *. cbn [run_lines_gen map].
-  pose proof (run_line_independent pf ns pool st line) as H. unfold run_line in H.
-  destruct (run_line_gen pf ResetCurrent true ns pool st line) as [s' res]. cbn [snd] in H. subst res.
-  f_equal. apply IH.
+  rewrite run_lines_cons, run_line_independent, IH. reflexivity.
 Qed.
 
 (* ---------------------------------------------------------------------------------------- *)
